@@ -4,6 +4,7 @@ import PcVerif.Model.DfxpTime
 import PcVerif.Model.SamiTime
 import PcVerif.Model.SamiWriter
 import PcVerif.Model.SamiStyle
+import PcVerif.Model.SamiInline
 import PcVerif.Model.Langs
 namespace PcVerif.Ops
 open Proto
@@ -19,6 +20,13 @@ def xmlOps : List (String × Handler) := [
     | [ps] =>
       let l := decList (fun x => match x.splitOn ":" with | [m, t] => (decNat m, decBool t) | _ => (0, false)) ps
       encList (fun (p : Int × Int) => toString p.1 ++ ";" ++ toString p.2) (Sami.translateLang l)
+    | _ => "bad-args"),
+  -- C11: the inline style attribute of a SAMI element (`SAMIReader._translate_style`), from a reader whose first alignment is `al`
+  ("sami.inlinestyle", fun a => match a with
+    | [al, st] =>
+      let r := SamiInline.translateStyle { align := decOptStr al } (decStr st)
+      let o := fun (x : Option Str) => match x with | none => "N" | some s => encStr s
+      String.intercalate ";" [encBool r.italics, encBool r.bold, encBool r.underline, o r.fontFamily, o r.fontSize, o r.lang, o r.color, o r.align]
     | _ => "bad-args")
 ]
 end PcVerif.Ops
